@@ -1,1 +1,323 @@
 import PQ.Model.SpecWriter
+import PQ.Model.Snappy
+import PQ.Model.Reader
+import PQ.Props.C07
+import PQ.Lemmas.Thrift
+import PQ.Lemmas.Segment
+import PQ.Lemmas.SnappyRT
+/-!
+# C04 — the reader decodes every conformant file, whatever legal encoding choices its writer made
+
+Only the property theorems and their non-vacuity examples live here; the proofs are in
+`PQ/Lemmas/{Segment,SnappyRT}.lean` (and the C07 / thrift libraries).
+
+The writer side is the independent nondeterministic writer of `PQ/Model/SpecWriter.lean` and
+`PQ/Model/Snappy.lean`: every encoding decision is taken from an arbitrary stream of choices `cs`.
+The theorems quantify over *all* choice streams.
+
+* `segment_spec`: every run segmentation the writer can choose is a well-formed encoding of the same levels.
+* `levels_any_segmentation`, `readLevels_any_segmentation`: the library's level decoder (`RLE.Read` /
+  `readLevels`) returns the same levels for every one of them.
+* `snappy_roundtrip`: every literal/copy segmentation the snappy encoder can choose decodes to the input.
+* `unknown_fields_skipped*`, `statistics_irrelevant*`: presence or absence of statistics and of unknown /
+  optional thrift fields does not change what the reader extracts from footer and page headers.
+-/
+namespace PQ.C04
+open PQ PQ.Thrift
+
+/-! ## 1. every legal run segmentation -/
+
+/-- **Every output of the nondeterministic segmenter is a well-formed encoding of the same levels**:
+for every choice stream, all runs are well formed for the width (RLE counts ≥ 1, bit-packed runs of ≥ 1
+groups of exactly 8 values, all values in range), their values are the levels followed by fewer than 8
+padding values, and every RLE count is at most the number of levels.  `fuel ≥ xs.length` suffices (the
+writer passes `xs.length + 1`): every step consumes at least one level. -/
+theorem segment_spec (w padv : Nat) (hp : padv < 2 ^ w) (fuel : Nat) (cs : Choices) (xs : List Nat)
+    (hx : ∀ x ∈ xs, x < 2 ^ w) (hf : xs.length ≤ fuel) :
+    (∀ r ∈ (segment padv fuel cs xs).1, r.WF w)
+    ∧ (∃ pad, pad < 8 ∧ runsVals (segment padv fuel cs xs).1 = xs ++ List.replicate pad padv)
+    ∧ (∀ c v, Run.rle c v ∈ (segment padv fuel cs xs).1 → c ≤ xs.length) :=
+  PQ.segment_ok w padv hp fuel cs xs hx hf
+
+/-- the serialised size of any segmentation is linear in the number of levels (so the `int32` length
+prefix never overflows for pages of the supported size) -/
+theorem segment_size (w padv : Nat) (h8 : w ≤ 8) (hp : padv < 2 ^ w) (fuel : Nat) (cs : Choices)
+    (xs : List Nat) (hx : ∀ x ∈ xs, x < 2 ^ w) (hf : xs.length ≤ fuel) (hlen : xs.length + 8 ≤ 2 ^ 34) :
+    (serRuns w (segment padv fuel cs xs).1).length ≤ 6 * (xs.length + 7) :=
+  PQ.segment_size w padv h8 hp fuel cs xs hx hf hlen
+
+/-! ## 2. the library decoder on every segmentation -/
+
+/-- **The library's level decoder returns the same levels for every legal segmentation** (any mix of
+RLE and bit-packed runs, any run lengths, bit-packed runs of more than 63 groups, any in-range padding
+value), whatever follows the level section, and reports exactly the section's size. -/
+theorem levels_any_segmentation (w : Nat) (hw : 1 ≤ w ∧ w ≤ 4) (padv : Nat) (hp : padv < 2 ^ w)
+    (fuel : Nat) (cs : Choices) (xs : List Nat) (hx : ∀ x ∈ xs, x < 2 ^ w) (hf : xs.length ≤ fuel)
+    (hlen : xs.length + 8 ≤ 2 ^ 28) (rest : Bytes) :
+    ∃ pad, pad < 8 ∧
+      implDecode w (levelSection w (segment padv fuel cs xs).1 ++ rest)
+        = .ok (xs ++ List.replicate pad padv, (levelSection w (segment padv fuel cs xs).1).length) :=
+  PQ.implDecode_segment w hw padv hp fuel cs xs hx hf hlen rest
+
+/-- the same for the specification decoder (every width) -/
+theorem spec_levels_any_segmentation (w : Nat) (h8 : w ≤ 8) (padv : Nat) (hp : padv < 2 ^ w)
+    (fuel : Nat) (cs : Choices) (xs : List Nat) (hx : ∀ x ∈ xs, x < 2 ^ w) (hf : xs.length ≤ fuel)
+    (hlen : xs.length + 8 ≤ 2 ^ 28) (rest : Bytes) :
+    ∃ pad, pad < 8 ∧
+      specDecode w (levelSection w (segment padv fuel cs xs).1 ++ rest)
+        = some (xs ++ List.replicate pad padv, (levelSection w (segment padv fuel cs xs).1).length) := by
+  obtain ⟨hwf, ⟨pad, hpad, hv⟩, _⟩ := segment_spec w padv hp fuel cs xs hx hf
+  have hsz := segment_size w padv h8 hp fuel cs xs hx hf (by omega)
+  refine ⟨pad, hpad, ?_⟩
+  rw [PQ.levelSection_length, PQ.levelSection_eq, List.append_assoc,
+    PQ.C07.spec_decode_wf w _ hwf (by omega) rest, hv]
+
+/-- **Reader level**: `readLevels` on page data holding the level section of any legal segmentation
+at offset `pre.length` returns the levels (plus fewer than 8 padding values, which the reader cuts off
+with `[:num_values]`) and the section's size. -/
+theorem readLevels_any_segmentation (w : Nat) (hw : 1 ≤ w ∧ w ≤ 4) (padv : Nat) (hp : padv < 2 ^ w)
+    (fuel : Nat) (cs : Choices) (xs : List Nat) (hx : ∀ x ∈ xs, x < 2 ^ w) (hf : xs.length ≤ fuel)
+    (hlen : xs.length + 8 ≤ 2 ^ 28) (pre rest : Bytes) :
+    ∃ pad, pad < 8 ∧
+      readLevelsAt w (pre ++ levelSection w (segment padv fuel cs xs).1 ++ rest) pre.length
+        = .ok (xs ++ List.replicate pad padv, (levelSection w (segment padv fuel cs xs).1).length) := by
+  obtain ⟨pad, hpad, h⟩ := levels_any_segmentation w hw padv hp fuel cs xs hx hf hlen rest
+  refine ⟨pad, hpad, ?_⟩
+  unfold readLevelsAt
+  rw [if_neg (by simp only [List.length_append]; omega), List.append_assoc, List.drop_left, h]
+
+/-- what the reader keeps, `levels[:num_values]`, is exactly the writer's levels — independent of the
+segmentation and of the padding value -/
+theorem readLevels_take (w : Nat) (hw : 1 ≤ w ∧ w ≤ 4) (padv : Nat) (hp : padv < 2 ^ w)
+    (fuel : Nat) (cs : Choices) (xs : List Nat) (hx : ∀ x ∈ xs, x < 2 ^ w) (hf : xs.length ≤ fuel)
+    (hlen : xs.length + 8 ≤ 2 ^ 28) (pre rest : Bytes) :
+    ∃ lv, readLevelsAt w (pre ++ levelSection w (segment padv fuel cs xs).1 ++ rest) pre.length
+        = .ok (lv, (levelSection w (segment padv fuel cs xs).1).length)
+      ∧ xs.length ≤ lv.length ∧ lv.take xs.length = xs := by
+  obtain ⟨pad, _, h⟩ := readLevels_any_segmentation w hw padv hp fuel cs xs hx hf hlen pre rest
+  exact ⟨_, h, by simp, by simp⟩
+
+/-! ## 3. every snappy stream the encoder can emit -/
+
+/-- what `matchLen` establishes: a copy of at most `matchLen` bytes from back-offset `off`, executed
+byte by byte (so it may overlap its own output), reproduces the upcoming input bytes -/
+theorem matchLen_spec (hist rest : Bytes) (off cap : Nat) (ho : 1 ≤ off) :
+    matchLen hist rest off cap ≤ cap ∧ matchLen hist rest off cap ≤ rest.length
+    ∧ ∀ len, len ≤ matchLen hist rest off cap → copyN off len hist = hist ++ rest.take len :=
+  PQ.matchLen_spec hist rest off cap ho
+
+/-- the decoder inverts the encoding of one valid element (literal of 1..65536 bytes with a 1-, 2- or
+3-byte tag; copy with a 1- or 2-byte offset), whatever follows it -/
+theorem snappy_element (fuel : Nat) (e : SnEl) (hist tail : Bytes) (h : e.OK hist) :
+    snappyBody (fuel + 1) (e.enc ++ tail) hist = snappyBody fuel tail (e.expand hist) :=
+  PQ.snappyBody_el fuel e hist tail h
+
+/-- **Every stream the nondeterministic snappy encoder can emit decodes to its input**: any cut into
+literals and back-reference copies (overlapping copies included), for every choice stream and every
+input (no hypothesis on the bytes or the length is needed). -/
+theorem snappy_roundtrip (cs : Choices) (raw : Bytes) : snappyDecode (snappyEncode cs raw) = some raw :=
+  PQ.snappyDecode_encode cs raw
+
+/-! ## 4. unknown / optional thrift fields are skipped -/
+
+/-- the field accessors ignore an appended field with another id -/
+theorem unknown_fields_skipped (fs : List (Nat × TVal)) (id id' : Nat) (v : TVal) (h : id' ≠ id) :
+    getI32 (fs ++ [(id', v)]) id = getI32 fs id ∧ getI64 (fs ++ [(id', v)]) id = getI64 fs id
+    ∧ getBin (fs ++ [(id', v)]) id = getBin fs id ∧ getList (fs ++ [(id', v)]) id = getList fs id
+    ∧ getStruct (fs ++ [(id', v)]) id = getStruct fs id := by
+  have hl : (fs ++ [(id', v)]).lookup id = fs.lookup id := by
+    have := PQ.lookup_insert fs [(id', v)] [] id (by simpa using h)
+    simpa using this
+  simp only [getI32, getI64, getBin, getList, getStruct, hl, and_self]
+
+/-- … and any number of fields with other ids inserted anywhere in the struct -/
+theorem unknown_fields_skipped_anywhere (fs1 extra fs2 : List (Nat × TVal)) (id : Nat)
+    (h : ∀ p ∈ extra, p.1 ≠ id) :
+    (fs1 ++ extra ++ fs2).lookup id = (fs1 ++ fs2).lookup id
+    ∧ getI32 (fs1 ++ extra ++ fs2) id = getI32 (fs1 ++ fs2) id
+    ∧ getI64 (fs1 ++ extra ++ fs2) id = getI64 (fs1 ++ fs2) id
+    ∧ getBin (fs1 ++ extra ++ fs2) id = getBin (fs1 ++ fs2) id
+    ∧ getList (fs1 ++ extra ++ fs2) id = getList (fs1 ++ fs2) id
+    ∧ getStruct (fs1 ++ extra ++ fs2) id = getStruct (fs1 ++ fs2) id := by
+  have hl := PQ.lookup_insert fs1 extra fs2 id h
+  simp only [getI32, getI64, getBin, getList, getStruct, hl, and_self]
+
+/-- **`PageHeader.Read` ignores unknown fields**: extra fields whose ids are not page-header fields the
+reader looks at, inserted anywhere, do not change the decoded header -/
+theorem page_header_unknown_fields (fs1 extra fs2 : List (Nat × TVal))
+    (h : ∀ p ∈ extra, p.1 ∉ [1, 2, 3, 5, 6, 7, 8]) :
+    decPHdr (.struct (fs1 ++ extra ++ fs2)) = decPHdr (.struct (fs1 ++ fs2)) := by
+  apply PQ.decPHdr_congr
+  intro id hid
+  exact PQ.lookup_insert fs1 extra fs2 id (fun p hp e => h p hp (e ▸ hid))
+
+/-- … and from the bytes: the generic thrift decoder reads the whole well-formed struct, unknown
+fields included, consuming exactly its bytes, and the header the reader extracts is that of the struct
+without them -/
+theorem page_header_bytes_unknown_fields (fs1 extra fs2 : List (Nat × TVal))
+    (hwf : (TVal.struct (fs1 ++ extra ++ fs2)).WF) (h : ∀ p ∈ extra, p.1 ∉ [1, 2, 3, 5, 6, 7, 8])
+    (fuel : Nat) (rest : Bytes) (hfuel : (TVal.struct (fs1 ++ extra ++ fs2)).size ≤ fuel) :
+    ∃ t, decVal tStruct fuel ((TVal.struct (fs1 ++ extra ++ fs2)).enc ++ rest) = some (t, rest)
+      ∧ decPHdr t = decPHdr (.struct (fs1 ++ fs2)) :=
+  ⟨_, PQ.Thrift.decVal_enc _ hwf fuel rest hfuel, page_header_unknown_fields fs1 extra fs2 h⟩
+
+/-- unknown fields inside the nested `DataPageHeader` (field 5) are ignored as well -/
+theorem data_page_header_unknown_fields (fs1 fs2 d1 extra d2 : List (Nat × TVal))
+    (h : ∀ p ∈ extra, p.1 ∉ [1, 2, 3, 4, 5]) :
+    decPHdr (.struct (fs1 ++ (5, .struct (d1 ++ extra ++ d2)) :: fs2))
+      = decPHdr (.struct (fs1 ++ (5, .struct (d1 ++ d2)) :: fs2)) := by
+  have hl : ∀ id ∈ [1, 2, 3, 4, 5], (d1 ++ extra ++ d2).lookup id = (d1 ++ d2).lookup id :=
+    fun id hid => PQ.lookup_insert d1 extra d2 id (fun p hp e => h p hp (e ▸ hid))
+  exact (PQ.decPHdr_replace_dph fs1 fs2 (d1 ++ d2) (d1 ++ extra ++ d2)
+    (fun id hid => hl id (by simp at hid ⊢; omega))).2 (hl 5 (by simp))
+
+/-- **`FileMetaData.Read` ignores unknown and optional fields** (`key_value_metadata`, `created_by`,
+anything with an id other than 1–4) -/
+theorem footer_unknown_fields (fs1 extra fs2 : List (Nat × TVal))
+    (h : ∀ p ∈ extra, p.1 ∉ [1, 2, 3, 4]) :
+    decFMD (.struct (fs1 ++ extra ++ fs2)) = decFMD (.struct (fs1 ++ fs2)) := by
+  have hl : ∀ id ∈ [1, 2, 3, 4], (fs1 ++ extra ++ fs2).lookup id = (fs1 ++ fs2).lookup id :=
+    fun id hid => PQ.lookup_insert fs1 extra fs2 id (fun p hp e => h p hp (e ▸ hid))
+  simp only [decFMD, TVal.fieldsOf, getI32, getI64, getList, hl 1 (by simp), hl 2 (by simp),
+    hl 3 (by simp), hl 4 (by simp)]
+
+/-- **`ColumnMetaData.Read` ignores unknown and optional fields** (statistics, key/value metadata,
+index/dictionary offsets, anything with an id other than 1–7 and 9) -/
+theorem column_meta_unknown_fields (fs1 extra fs2 : List (Nat × TVal))
+    (h : ∀ p ∈ extra, p.1 ∉ [1, 2, 3, 4, 5, 6, 7, 9]) :
+    decColMeta (fs1 ++ extra ++ fs2) = decColMeta (fs1 ++ fs2) := by
+  have hl : ∀ id ∈ [1, 2, 3, 4, 5, 6, 7, 9], (fs1 ++ extra ++ fs2).lookup id = (fs1 ++ fs2).lookup id :=
+    fun id hid => PQ.lookup_insert fs1 extra fs2 id (fun p hp e => h p hp (e ▸ hid))
+  simp only [decColMeta, getI32, getI64, getList, hl 1 (by simp), hl 2 (by simp), hl 3 (by simp),
+    hl 4 (by simp), hl 5 (by simp), hl 6 (by simp), hl 7 (by simp), hl 9 (by simp)]
+
+/-! ## 5. statistics are never used -/
+
+/-- **A page header with and without the statistics field** (field 5 of the data page header, inserted
+anywhere in it, any value) **decodes to the same type, sizes, `num_values` and encodings** and the same
+dictionary / index / v2 flags; decoding succeeds for one iff it does for the other. -/
+theorem statistics_irrelevant (fs1 fs2 d1 d2 : List (Nat × TVal)) (st : TVal) :
+    (decPHdr (.struct (fs1 ++ (5, .struct (d1 ++ (5, st) :: d2)) :: fs2))).map
+        (fun p => (p.ty, p.uncompressed, p.compressed,
+          p.dph.map (fun q => (q.1, q.2.1, q.2.2.1, q.2.2.2.1)), p.hasDict, p.hasIndex, p.hasV2))
+      = (decPHdr (.struct (fs1 ++ (5, .struct (d1 ++ d2)) :: fs2))).map
+        (fun p => (p.ty, p.uncompressed, p.compressed,
+          p.dph.map (fun q => (q.1, q.2.1, q.2.2.1, q.2.2.2.1)), p.hasDict, p.hasIndex, p.hasV2)) := by
+  have hl : ∀ id ∈ [1, 2, 3, 4], (d1 ++ (5, st) :: d2).lookup id = (d1 ++ d2).lookup id := by
+    intro id hid
+    have := PQ.lookup_insert d1 [(5, st)] d2 id (by
+      intro p hp e
+      rw [List.mem_singleton.mp hp] at e
+      simp only at e; subst e; simp at hid)
+    simpa using this
+  exact (PQ.decPHdr_replace_dph fs1 fs2 (d1 ++ d2) (d1 ++ (5, st) :: d2) hl).1
+
+/-- **Reader level**: everything the reader computes from a page header — the page check, the number of
+values, and the page data it reads and decompresses — is the same with and without statistics. -/
+theorem statistics_irrelevant_reader (fs1 fs2 d1 d2 : List (Nat × TVal)) (st : TVal) (ph : PHdr)
+    (h : decPHdr (.struct (fs1 ++ (5, .struct (d1 ++ (5, st) :: d2)) :: fs2)) = some ph) :
+    ∃ ph', decPHdr (.struct (fs1 ++ (5, .struct (d1 ++ d2)) :: fs2)) = some ph'
+      ∧ (∀ defs reps, checkPage ph' defs reps = checkPage ph defs reps)
+      ∧ numValuesOf ph' = numValuesOf ph
+      ∧ ∀ dc s codec, pageData dc s ph' codec = pageData dc s ph codec := by
+  have hs := statistics_irrelevant fs1 fs2 d1 d2 st
+  rw [h] at hs
+  cases h' : decPHdr (.struct (fs1 ++ (5, .struct (d1 ++ d2)) :: fs2)) with
+  | none => rw [h'] at hs; simp at hs
+  | some ph' =>
+    rw [h'] at hs
+    simp only [Option.map_some, Option.some.injEq, Prod.mk.injEq] at hs
+    obtain ⟨e1, e2, e3, e4, _⟩ := hs
+    refine ⟨ph', rfl, ?_, ?_, ?_⟩
+    · intro defs reps
+      unfold checkPage
+      rw [e1]
+      cases hd : ph.dph <;> cases hd' : ph'.dph <;> simp_all
+    · unfold numValuesOf
+      cases hd : ph.dph <;> cases hd' : ph'.dph <;> simp_all
+    · intro dc s codec
+      unfold pageData
+      rw [e2, e3]
+
+/-! ## non-vacuity -/
+section NonVacuity
+
+/-- 13 levels of width 2 -/
+def xs13 : List Nat := [1, 1, 1, 0, 2, 3, 1, 0, 2, 2, 1, 3, 3]
+
+theorem xs13_hyps : (1 ≤ 2 ∧ 2 ≤ 4) ∧ (2 < 2 ^ 2) ∧ (∀ x ∈ xs13, x < 2 ^ 2) ∧ xs13.length ≤ 14
+    ∧ xs13.length + 8 ≤ 2 ^ 28 := by decide
+
+/-- one choice stream: an RLE run of 3, a bit-packed run of one group, an RLE run of 2 -/
+example : (segment 2 14 [0, 2, 3, 0, 0, 1] xs13).1
+    = [.rle 3 1, .packed [[0, 2, 3, 1, 0, 2, 2, 1]], .rle 2 3] := by decide
+
+/-- another choice stream for the same levels: an RLE run of 3, then one bit-packed run of two groups,
+the last one padded with six 2s -/
+example : (segment 2 14 [0, 2, 1, 0] xs13).1
+    = [.rle 3 1, .packed [[0, 2, 3, 1, 0, 2, 2, 1], [3, 3, 2, 2, 2, 2, 2, 2]]] := by decide
+
+/-- an exhausted choice stream picks 0 everywhere: RLE runs of a single level each (legal, and never
+produced by the library's own encoder) -/
+example : (segment 2 14 [] [0, 0, 1]).1 = [.rle 1 0, .rle 1 0, .rle 1 1] := by decide
+
+/-- the library decoder on both segmentations (theorem 2), with arbitrary bytes following -/
+example : ∃ pad, pad < 8 ∧
+    implDecode 2 (levelSection 2 (segment 2 14 [0, 2, 3, 0, 0, 1] xs13).1 ++ [9, 9])
+      = .ok (xs13 ++ List.replicate pad 2, (levelSection 2 (segment 2 14 [0, 2, 3, 0, 0, 1] xs13).1).length) :=
+  levels_any_segmentation 2 xs13_hyps.1 2 xs13_hyps.2.1 14 _ xs13 xs13_hyps.2.2.1 xs13_hyps.2.2.2.1
+    xs13_hyps.2.2.2.2 [9, 9]
+
+example : ∃ pad, pad < 8 ∧
+    readLevelsAt 2 ([5] ++ levelSection 2 (segment 2 14 [0, 2, 1, 0] xs13).1 ++ [9, 9]) [5].length
+      = .ok (xs13 ++ List.replicate pad 2, (levelSection 2 (segment 2 14 [0, 2, 1, 0] xs13).1).length) :=
+  readLevels_any_segmentation 2 xs13_hyps.1 2 xs13_hyps.2.1 14 _ xs13 xs13_hyps.2.2.1 xs13_hyps.2.2.2.1
+    xs13_hyps.2.2.2.2 [5] [9, 9]
+
+/-- the bytes of the second segmentation: length 7; RLE header 6 = 3<<1, value 1; bit-packed header
+5 = 2<<1|1, four bytes -/
+example : levelSection 2 (segment 2 14 [0, 2, 1, 0] xs13).1 = [7, 0, 0, 0, 6, 1, 5, 0x78, 0x68, 0xaf, 0xaa] := by
+  have h6 : uleb 6 = [6] := by rw [uleb]; simp
+  have h5 : uleb 5 = [5] := by rw [uleb]; simp
+  have hs : (segment 2 14 [0, 2, 1, 0] xs13).1
+      = [.rle 3 1, .packed [[0, 2, 3, 1, 0, 2, 2, 1], [3, 3, 2, 2, 2, 2, 2, 2]]] := by decide
+  rw [hs]
+  simp [levelSection, serRuns, Run.ser, h6, h5, le32, leBytes, packSpec]
+  decide
+
+/-- a snappy choice stream producing a literal, an *overlapping* copy (offset 1, length 5) and a literal -/
+def raw7 : Bytes := [7, 7, 7, 7, 7, 7, 9]
+
+example : snappyElems 8 [0, 0, 2, 0, 0, 0] [] raw7 = [.lit [7], .copy 1 5, .lit [9]] := by rfl
+
+example : snappyEncode [0, 0, 2, 0, 0, 0] raw7 = [7, 0, 7, 5, 1, 0, 9] := by
+  have h7 : uleb 7 = [7] := by rw [uleb]; simp
+  have he : snappyElems 8 [0, 0, 2, 0, 0, 0] [] raw7 = [.lit [7], .copy 1 5, .lit [9]] := by rfl
+  simp only [snappyEncode, raw7, List.length_cons, List.length_nil] at he ⊢
+  rw [h7, he]
+  rfl
+
+/-- the specification decoder on that stream, evaluated -/
+example : snappyDecode [7, 0, 7, 5, 1, 0, 9] = some raw7 := by decide
+
+/-- … and through the theorem -/
+example : snappyDecode (snappyEncode [0, 0, 2, 0, 0, 0] raw7) = some raw7 := snappy_roundtrip _ _
+
+/-- the overlapping copy itself: from one byte of history, offset 1, five bytes -/
+example : copyN 1 5 [7] = [7, 7, 7, 7, 7, 7] ∧ matchLen [7] [7, 7, 7, 7, 7, 9] 1 64 = 5 := by decide
+
+/-- the spec writer's own extra page-header field (id 100) and a statistics struct are skipped -/
+example : decPHdr (.struct ([(1, .int 5 0), (2, .int 5 10), (3, .int 5 10),
+      (5, .struct ([(1, .int 5 3), (2, .int 5 0), (3, .int 5 3), (4, .int 5 3)] ++ extraField ++ []))] ++ extraField ++ []))
+    = decPHdr (.struct ([(1, .int 5 0), (2, .int 5 10), (3, .int 5 10),
+      (5, .struct ([(1, .int 5 3), (2, .int 5 0), (3, .int 5 3), (4, .int 5 3)] ++ []))] ++ [])) := by
+  rw [page_header_unknown_fields _ extraField _ (by decide)]
+  exact data_page_header_unknown_fields [(1, .int 5 0), (2, .int 5 10), (3, .int 5 10)] []
+    [(1, .int 5 3), (2, .int 5 0), (3, .int 5 3), (4, .int 5 3)] extraField [] (by decide)
+
+example : (decPHdr (.struct [(1, .int 5 0), (2, .int 5 10), (3, .int 5 10),
+      (5, .struct [(1, .int 5 3), (2, .int 5 0), (3, .int 5 3), (4, .int 5 3)])])).isSome = true := by decide
+
+end NonVacuity
+
+end PQ.C04
